@@ -184,7 +184,10 @@ class SimSocket:
             self._chk()
             f = self._fault('send')
             if f is not None:
-                raise f
+                try:
+                    raise f
+                finally:
+                    del f            # no frame -> exception -> traceback -> frame cycle: the work must die by refcount as in CPython
             if self.got_rst or self.wr_shut or self.peer is None or self.peer.closed:
                 raise BrokenPipeError(errno.EPIPE, 'Broken pipe')
             room = self.peer.cap - len(self.peer.rx)
@@ -217,7 +220,10 @@ class SimSocket:
             self._chk()
             f = self._fault('recv')
             if f is not None:
-                raise f
+                try:
+                    raise f
+                finally:
+                    del f            # no frame -> exception -> traceback -> frame cycle: the work must die by refcount as in CPython
             if self.rx:
                 d = bytes(self.rx[:bufsize])
                 del self.rx[:bufsize]
@@ -247,7 +253,10 @@ class SimSocket:
             self._chk()
             f = self._fault('shutdown')
             if f is not None:
-                raise f
+                try:
+                    raise f
+                finally:
+                    del f            # no frame -> exception -> traceback -> frame cycle: the work must die by refcount as in CPython
             if self.got_rst:
                 raise OSError(errno.ENOTCONN, 'Transport endpoint is not connected')
         except OSError as e:
